@@ -1,5 +1,5 @@
 (* C17 — the whole-line export / reload / redesign fixpoint (fibre side and amplifier side composed). *)
-From Verif Require Import Prelude Model.Chain Model.Redesign Proofs.Chain Proofs.Redesign.
+From Verif Require Import Prelude Model.Chain Model.Redesign Proofs.Chain Proofs.ChainSplit Proofs.Redesign.
 From Coq Require Import QArith Qround Lia ZifyBool Lqa Permutation.
 Open Scope Z_scope.
 
@@ -239,8 +239,16 @@ Proof.
 Qed.
 
 (* a designed, exported and reloaded line is left as it is by add_missing *)
+Lemma reload_split_id : forall c p, Forall (fstable c) p -> Forall grid_ok p ->
+  split_chain c (export_els p) = Ok (export_els p).
+Proof.
+  intros c p F G. induction p as [|e t IH]; [reflexivity|].
+  inversion F as [|? ? Fe Ft]; subst. inversion G as [|? ? Ge Gt]; subst. specialize (IH Ft Gt).
+  destruct e as [f|n lo|a]; cbn [export_els map export_el split_chain]; fold (export_els t); rewrite IH; try reflexivity.
+  cbn [fstable] in Fe. destruct Ge as [G1 _]. rewrite (Fe (export_fib f) G1). reflexivity.
+Qed.
 Lemma add_missing_reloaded : forall c x p, junctions_ok (l_sk x) (l_dk x) p = true -> p <> [] ->
-  Forall (short_ok c) (export_els p) -> add_missing c (with_els x (export_els p)) = Ok (with_els x (export_els p)).
+  split_chain c (export_els p) = Ok (export_els p) -> add_missing c (with_els x (export_els p)) = Ok (with_els x (export_els p)).
 Proof.
   intros c x p Hj Hne Hs. destruct (junction_facts (l_dk x) p (NEnd (l_sk x)) Hj) as (F1 & F2 & F3).
   set (e1 := export_els p) in *.
@@ -254,7 +262,7 @@ Proof.
   assert (WP : want_preamp l0 = false).
   { unfold want_preamp. rewrite E0. cbn [l_sk l_els l_dk with_els]. unfold e1 at 1. rewrite export_ends_fib.
     destruct e1 as [|? ?]; [contradiction|]. rewrite Bool.orb_false_r. exact F2. }
-  unfold add_missing. cbn [l_els with_els]. rewrite (split_chain_short c e1 Hs). cbn [bind]. fold l0.
+  unfold add_missing. cbn [l_els with_els]. rewrite Hs. cbn [bind]. fold l0.
   assert (DF : l_dst_first (with_els x e1) = l_dst_first x) by reflexivity. rewrite DF.
   rewrite (add_preamp_id l0 WP), (add_booster_id l0 WB). cbn [bind]. rewrite (add_preamp_id l0 WP), (add_booster_id l0 WB).
   assert (EL : l_els l0 = e1) by reflexivity.
@@ -284,13 +292,14 @@ Record fibre_fix (c : cfg) (x : line) (p els2 : list elem) : Prop := {
   ff_runs : mapM (pad_run c) (runs els2) = Ok (runs els2);
   ff_missing : add_missing c (with_els x (export_els p)) = Ok (with_els x (export_els p))
 }.
-(* EOL = 0, designed fibres on the export grid and shorter than max_length after export: the reloaded line is
-   designed into itself, fibre by fibre *)
+(* EOL = 0 and designed fibres on the export grid: the reloaded line is designed into itself, fibre by fibre
+   (no span is split again: ChainSplit.calc_len_idem) *)
 Lemma fibre_round : forall c x L1, (c_eol c == 0)%Q -> c_min c <= c_max c -> no_auto (l_els x) ->
-  design_line c x = Ok L1 -> l_els L1 <> [] -> Forall grid_ok (l_els L1) -> Forall (short_ok c) (export_els (l_els L1)) ->
+  design_line c x = Ok L1 -> l_els L1 <> [] -> Forall grid_ok (l_els L1) ->
   fibre_fix c x (l_els L1) (conn c (export_els (l_els L1))).
 Proof.
-  intros c x L1 H0 Hc Hna H Hne Hg Hs.
+  intros c x L1 H0 Hc Hna H Hne Hg.
+  pose proof (reload_split_id c (l_els L1) (design_line_stable c x L1 Hc Hna H) Hg) as Hs.
   destruct (design_line_spec c x L1 Hc Hna H) as [_ Hj Hf _ _ _ _].
   set (p := l_els L1) in *. set (e1 := export_els p) in *. set (els2 := conn c e1).
   pose proof (add_missing_reloaded c x p Hj Hne Hs) as AM. fold e1 in AM.
@@ -528,19 +537,18 @@ Lemma Forall2_length : forall {A B} (R : A -> B -> Prop) l l', Forall2 R l l' ->
 Proof. induction 1; cbn; congruence. Qed.
 
 (* ---------- the whole line ---------- *)
-(* EOL = 0, power mode, no Raman fibre; the designed fibres lie on the export grid and stay below max_length when
-   exported; amplifier uids distinct.  Then exporting the designed line, reloading it and designing it again gives
+(* EOL = 0, power mode, no Raman fibre; the designed fibres lie on the export grid; amplifier uids distinct.  Then exporting the designed line, reloading it and designing it again gives
    a line whose export is the same document: elements (fibres, fused, amplifiers) and amplifier settings. *)
 Theorem redesign_line_fixpoint : forall c s lib sel rgain opsf D0 ptot x L1 outs1,
   pm_ok s lib -> (c_eol c == 0)%Q -> c_min c <= c_max c -> no_auto (l_els x) -> (forall n, i_name (opsf n) = n) ->
   design_full c s lib sel rgain opsf D0 ptot x = Ok (L1, outs1) ->
-  l_els L1 <> [] -> Forall grid_ok (l_els L1) -> Forall (short_ok c) (export_els (l_els L1)) ->
+  l_els L1 <> [] -> Forall grid_ok (l_els L1) ->
   has_raman (l_els L1) = false -> NoDup (map o_name outs1) ->
   exists r2, design_full c s lib sel rgain (ops_of (snd (export_full (L1, outs1)))) D0 ptot
                          (reload_full x (export_full (L1, outs1))) = Ok r2 /\
              export_full r2 = export_full (L1, outs1).
 Proof.
-  intros c s lib sel rgain opsf D0 ptot x L1 outs1 Hok H0 Hc Hna Hops H Hne Hg Hs Hr ND.
+  intros c s lib sel rgain opsf D0 ptot x L1 outs1 Hok H0 Hc Hna Hops H Hne Hg Hr ND.
   pose proof Hok as (Hpm & _ & _).
   unfold design_full in H.
   destruct (add_missing c x) as [l1|] eqn:E1; [|discriminate]. cbn [bind] in H.
@@ -551,7 +559,7 @@ Proof.
   cbn [l_els with_els] in *.
   assert (DL : design_line c x = Ok (with_els l1 p1)).
   { unfold design_line. rewrite E1. cbn [bind]. fold els1. rewrite E2. reflexivity. }
-  pose proof (fibre_round c x (with_els l1 p1) H0 Hc Hna DL Hne Hg Hs) as FF. cbn [l_els with_els] in FF.
+  pose proof (fibre_round c x (with_els l1 p1) H0 Hc Hna DL Hne Hg) as FF. cbn [l_els with_els] in FF.
   set (e1 := export_els p1) in *. set (els2 := conn c e1) in *.
   destruct FF as [F1 _ F3 F4 F5 F6].
   change (export_els p1) with e1 in F1, F3, F4, F5, F6. change (conn c e1) with els2 in F1, F3, F4, F5, F6.
@@ -612,14 +620,13 @@ Example exl_hyps : exists L1 outs1,
   design_full exl_cfg ex_s ex_lib ex_sel (fun _ => 0%Q) (ops_of []) (-20) (198 # 10) exl_line = Ok (L1, outs1) /\
   pm_ok ex_s ex_lib /\ (c_eol exl_cfg == 0)%Q /\ c_min exl_cfg <= c_max exl_cfg /\ no_auto (l_els exl_line) /\
   (forall n, i_name (ops_of [] n) = n) /\
-  l_els L1 <> [] /\ Forall grid_ok (l_els L1) /\ Forall (short_ok exl_cfg) (export_els (l_els L1)) /\
+  l_els L1 <> [] /\ Forall grid_ok (l_els L1) /\
   has_raman (l_els L1) = false /\ NoDup (map o_name outs1) /\
   map o_name outs1 = ["Edfa_booster_A_to_f1"; "Edfa_f1"; "Edfa_preamp_B_from_f2"]%string.
 Proof.
   eexists. eexists. split; [vm_compute; reflexivity|].
   split; [exact ex_pm_ok|]. split; [reflexivity|]. split; [vm_compute; congruence|]. split; [reflexivity|].
   split; [intro n; reflexivity|]. split; [discriminate|].
-  split; [repeat constructor; vm_compute; reflexivity|].
   split; [repeat constructor; vm_compute; reflexivity|].
   split; [reflexivity|].
   split; [|reflexivity].
